@@ -52,6 +52,10 @@ CHECKS = {
  "C19": dict(tech="property-based testing (proptest) driving the real cteepbd binary out of process, oracle = precedence model of the statement",
              text="Each generated case is one run of /repo's cteepbd binary with, independently for area, k_exp, location, RED1, RED2, the option absent/valid/invalid and the metadata absent/valid/invalid (boundaries, out-of-range, non-numeric, empty), factor source none / -l / -f incl. the -f/-l conflict. Checked: exit status (0/1/64/65), the three echo lines with origin and value, --json k_exp/arearef/wfactors, --oc metadata, C_ep of the report against an in-process evaluation with the effective parameters, and no report / result files on refusal. Exploration over the configuration matrix.",
              note="Corners on which the statement is silent accept both behaviours (listed in evidence assumptions); debug build of the CLI.", ref="4/C19"),
+
+ "C17": dict(tech="property-based testing (proptest): validity predicates on the three output documents (strict XML checker, JSON round trip, report parser) over generated results with nasty comment / metadata strings; a sample also through the real binary",
+             text="For generated results whose comments and metadata contain <, >, &, quotes, backslashes, ]]>, -->, partial entities, combining and astral characters: to_xml() must pass a strict well-formedness checker and state kexp, AreaRef, Epm2, every Valores list and every factor of the struct; the JSON must be valid, read back into a result and re-serialise to the same document (up to the 3-decimal rounding); every labelled number and table of to_plain() must match the struct, table keys exact and sorted; a second evaluation must print the same labels and numbers. About 1-3 % of the cases also run cteepbd --json --xml --txt and apply the same checks to the files (and --txt == stdout report). Exploration.",
+             note="Hand-written XML checker (no XML crate offline); comment content fidelity not claimed; one printed unit tolerance.", ref="4/C17"),
 }
 PENDING = {}
 TITLES = {}
